@@ -102,7 +102,7 @@ CLAIMED = {
 
  "C04": dict(
     category="model_checking",
-    text="TxnModel is the oracle (a completed statement returns exactly the answer over committed data (+) its own transaction's earlier writes, or its transaction aborts). For seeded pairs of 1-3-statement programs over point / range / sequential reads, inserts, deletes, in-place, key-changing and relocating updates on 3 rows, EVERY statement-level interleaving (incl. commit/abort positions) is executed on a fresh engine by one goroutine, plus sampled three-transaction schedules; after each schedule the committed table is read back through the scan and the index path. TLC validates every answer and classifies differences (dirty / hidden / wrong / final). In addition one schedule per edge of the TwoPL state graph (shortest path + the edge + an observation suffix) is executed, and under real goroutine concurrency 4 goroutines run transactions of their own whose merged invocation / return history is judged by TLC (TxnHistoryTrace: dirty / stale / own-write / hidden reads, final table).",
+    text="TxnModel is the oracle (a completed statement returns exactly the answer over committed data (+) its own transaction's earlier writes, or its transaction aborts). For seeded pairs of 1-3-statement programs over point / range / sequential reads, inserts, deletes, in-place, key-changing and relocating updates and updates answered by a sequential scan, on 3 rows, EVERY statement-level interleaving (incl. commit/abort positions) is executed on a fresh engine by one goroutine, plus sampled three-transaction schedules; after each schedule the committed table is read back through the scan and the index path. TLC validates every answer and classifies differences (dirty / hidden / wrong / final). In addition one schedule per edge of the TwoPL state graph (shortest path + the edge + an observation suffix) is executed, and under real goroutine concurrency 4 goroutines run transactions of their own whose merged invocation / return history is judged by TLC (TxnHistoryTrace: dirty / stale / own-write / hidden reads, final table).",
     design_ref="DESIGN.md section 5 C04",
     note="Trusted: TLC, the schedule driver, the shared atomic counter that orders the concurrent history. One open known finding (key-changing update hides the committed row from index lookups of other transactions).",
     technique="TLA+ mechanism spec (TwoPL) model-checked against the contract; TLA+ contract spec (TxnModel) as oracle for exhaustive statement-level interleavings of program pairs executed on the real engine, judged by TLC trace validation"),
